@@ -16,11 +16,12 @@ func (Engine) Name() string { return "E5-schema" }
 
 // Runs implements core.Engine.
 func (Engine) Runs(prop, tier string) int {
+	quick := map[string]int{"C14": 320000, "C15": 240000, "C16": 640000}[prop]
 	if tier == "thorough" {
-		return 6000000
+		return quick * 40
 	}
 
-	return 160000
+	return quick
 }
 
 // Describe implements core.Engine.
